@@ -19,7 +19,7 @@ TARGETS = [  # name, libs, dictionary, weight of the per-target run budget
 # fuzzing never uses allocator_may_return_null: an allocation failure must be reported as such, not turned into a null dereference
 FUZZ_ENV = {"ASAN_OPTIONS": "abort_on_error=1:detect_leaks=0:allocator_may_return_null=0:handle_abort=0:symbolize=1",
             "UBSAN_OPTIONS": "print_stacktrace=1:halt_on_error=1"}
-STACK_KB = 1024          # fz_manifest only, see the harness header
+STACK_KB = 8192          # fz_manifest: the usual main-thread stack, fixed explicitly (see the harness header, pass C)
 LIBFUZZER_FLAGS = ["-timeout=10", "-rss_limit_mb=2048", "-max_len=4096", "-print_final_stats=1", "-reload=0"]
 
 
@@ -28,7 +28,7 @@ def build_target(name, libs):
 
 
 def wrap(name, cmd, small_stack=True):
-    """fz_manifest runs with a 1 MB stack so that unbounded loader recursion surfaces inside its load budget."""
+    """fz_manifest runs with an explicit 8 MB stack: with an unlimited stack unbounded loader recursion would not surface."""
     if name == "fz_manifest" and small_stack:
         return ["/bin/sh", "-c", 'ulimit -s %d; exec "$0" "$@"' % STACK_KB] + cmd
     return cmd
@@ -107,15 +107,6 @@ def judge_artifact(name, binp, path):
     if r["kind"] in ("monitor",):
         return "violation", r["key"], info
     if r["kind"] == "crash":
-        if name == "fz_manifest" and "stack-overflow" in r["key"]:
-            # confirm under default conditions: 8 MB stack, practically unlimited file-system budget
-            r2 = run_single(name, binp, path, 600, small_stack=False, env={"FZ_MAX_LOADS": "1000000"})
-            info["confirm_default_stack"] = dict(rc=r2["rc"], wall=round(r2["wall"], 2), key=r2["key"])
-            if r2["kind"] == "crash" and "stack-overflow" in (r2["key"] or ""):
-                return "violation", r2["key"], info
-            if r2["kind"] in ("timeout", "oom") or r2["kind"] is None:
-                return "not-judged", "deep recursion that fits the default stack or exhausts another resource first", info
-            return "violation", r2["key"], info
         return "violation", r["key"], info
     if r["kind"] in ("timeout", "oom") or r["wall"] > 20:
         if name == "fz_manifest" and expansion_possible(data):
